@@ -8,6 +8,17 @@ BASE = "cd /repo && /venv/bin/python -m pytest -ra -q -p no:cacheprovider --time
 
 # id -> dict(level, text, note, technique, design_ref, engine)
 CLAIMS = {
+ "C18": dict(
+  level="model_checking",
+  text="Determinism.tla defines the INPUTS of every operation (operation + versions of the files it reads; not history, order, "
+       "hash seed, working directory or text format) as a key; Determinism_MC enumerates all 5733 schedules of length 4 over "
+       "the operation alphabet with environment steps (new content at the same path, chdir) and checks that equal keys mean "
+       "equal inputs. The schedules are executed back to back in one real interpreter per PYTHONHASHSEED in {0, 1, 12345, "
+       "random}; every distinct key is executed in fresh interpreters; Ref / Exec events are judged by TLC: out = ref[key], "
+       "with signature value and IV/ciphertext erased for sign / encrypt.",
+  note="Trusted: TLC, the projection that erases signature/IV, sha256 interning. Quick tier samples 40 schedules per seed.",
+  technique="TLA+ spec (Determinism.tla, Determinism_MC.tla) + TLC enumeration of all bounded schedules replayed in one real interpreter + TLC trace validation against fresh-interpreter references",
+  design_ref="DESIGN.md 4.14, 5 (C18)", engine="tlc"),
  "C19": dict(
   level="model_checking",
   text="Processor.tla is a device-side step machine over SUIT commands stating IndexDeclared, "
